@@ -18,16 +18,16 @@ CLAIMS = {
          "assign_outgoing's complete transition function on the cells [1,0xFFFE],{0xFFFF} (sequence and flag follow by induction), id/flag flow into the headers and key=destination in send_sd and _notify_single, empty-send guard, single writer of the memory, no transmission bypassing send_sd",
          "defaultdict factory semantics; single-threaded use (the lock is not part of the property)", "4 C08"),
  "C18": ("sibling agreement of stream and datagram decoder + byte-source typestate",
-         "read() and parse() take the same decision and build the same fields on every boundary cell of the header fields, read() draws bytes only via readexactly(header) then readexactly(length-8), incomplete reads propagate; chunking independence then follows from the readexactly contract",
+         "read() and parse() take the same decision and build the same fields on every boundary cell of the header fields, read() draws bytes only via readexactly(header) then readexactly(length-8), incomplete reads propagate, a header the datagram decoder rejects is rejected by read() after exactly one readexactly (same message position); chunking independence then follows from the readexactly contract",
          "asyncio.StreamReader.readexactly contract", "4 C18"),
  "C19": ("exhaustive truth tables over an exact equality partition + conversion field tables",
-         "after checking syntactically that ids/versions are only tested for (in)equality, all 3^4 x 3^4 abstract operand pairs of every matching predicate are compared with the oracle and the algebraic laws; conversions are compared as field-mapping tables",
+         "after checking syntactically that ids/versions are only tested for (in)equality, all 3^4 x 3^4 abstract operand pairs of every matching predicate are compared with the oracle and the algebraic laws (any other operand field the decision consults is a free dimension the table must hold for); conversions are compared as field-mapping tables",
          "dataclass construction stores arguments unchanged", "4 C19"),
  "C20": ("reader->writer codec tables, range closure, exhaustive flag bytes",
          "every wire position is bound invertibly or constant, decoded value ranges fit the writer positions, raw information (unknown option, flag bits, protocol numbers, raw indexes, unreferenced options) is re-emitted raw, SOME/IP positions all retained with recomputed length, configuration strings split/join inverse on representative bodies",
          "struct inverse law; ASCII codec preserves length", "4 C20"),
  "C05": ("ATOMIC(store, notification) typestate + who-may-notify + deferral-stamp ordering over the resolved call graph",
-         "every mutation of found_services.store invokes its notification in the same synchronous step and nothing else invokes it (so listener history = presence history for every interleaving); (un)watch catch-up is synchronous; reboot handling precedes the offers of the same message by stamp order (call_soon depth, program order) - decided structurally, not by sampling schedules",
+         "every mutation of found_services.store invokes its notification in the same synchronous step and nothing else invokes it (so listener history = presence history for every interleaving); (un)watch catch-up is synchronous and reports stored (service, address) pairs; the notifier slots reach the listeners of every matching filter and the watch-all listeners with the reported pair; no cached view of store or filters survives a change of them; reboot handling precedes the offers of the same message by stamp order (call_soon depth, program order) - decided structurally, not by sampling schedules",
          "asyncio ready queue is FIFO; listeners do not re-enter the discovery; one listener under two overlapping filters is not decided", "4 C05"),
  "C06": ("ATOMIC typestate for the subscription store + reject-before-record path facts + who-may-remove call graph + deferral-stamp ordering",
          "store mutation and client_(un)subscribed are one synchronous step, a rejected subscription is never recorded, removals are reachable only from TTL expiry / StopSubscribe / reboot / service stop, reboot handling precedes the Subscribe entries of the same message, identity excludes TTL and options",
@@ -48,7 +48,7 @@ CLAIMS = {
          "every transmitted list is computed after the most recent await as the unfound watched services mapped through create_find_entry(FIND_TTL), initial delay window, 2**i*base repetition delays, rounds bounded by REPETITIONS_MAX, an empty round ends the task, multicast destination",
          "no other callback runs between two awaits; sleep honours its argument", "4 C13"),
  "C14": ("uniform deferral depth of transmissions + requested-set who-may-write + entry field tables",
-         "subscribe / stop-subscribe / stop defer their transmissions by the same number of loop iterations (so wire order = call order), StopSubscribe only after a successful removal, no Subscribe while not alive, refresh rounds use the current set without an await in between and sleep the refresh interval, Subscribe entries carry ids/TTL/one endpoint option and go to the stored server",
+         "subscribe / stop-subscribe / stop defer their transmissions by the same number of loop iterations (so wire order = call order), StopSubscribe only after a successful removal, no Subscribe while not alive, refresh rounds use the current set without an await in between (no cached grouping survives a change of the requested set) and sleep the refresh interval, Subscribe entries carry ids/TTL/one endpoint option and go to the stored server",
          "asyncio ready queue is FIFO; getnameinfo returns the numeric host/port", "4 C14"),
  "C15": ("SendCollector typestate (open/done) + key agreement + who-may-call",
          "append only while open and only from queue_send, done set before the flush of the same list, one timer per collector armed at construction with the collection timeout, collector keyed and bound to the same remote, nobody cancels, zero timeout bypass sends one entry immediately, no announcer/instance transmission bypasses queue_send",
